@@ -4,11 +4,13 @@ CONSTANTS
   Targets = {"funcfl"}
   MaxSp = 1
   MaxPots = 0
-  NRs = {2,3,5,6,11}
-  NRhos = {2,3,5,7}
-  Faults = FALSE
-  FlushFixed = TRUE
+  NRs = {3}
+  NRhos = {2}
+  Faults = TRUE
+  FlushFixed = FALSE
 INVARIANT TypeOK
 INVARIANT NoStuck
-INVARIANT C19_Funcfl
+INVARIANT C17_AllOrNothing
+INVARIANT C17_WholeOrNothing
 INVARIANT C17_DoneMeansWhole
+INVARIANT C17_NoFaultNoRaise
